@@ -104,6 +104,9 @@ pub struct Victim {
     pub end: End,
     pub tape: Tape,
     pub gc: GcSched,
+    /// start the victim with eval() instead of prepare() (module-mode victims)
+    #[serde(default)]
+    pub eval: bool,
 }
 
 #[derive(Clone, Debug, Serialize, Deserialize)]
@@ -244,6 +247,8 @@ fn normalise_traffic(t: &[String]) -> Vec<String> {
 /// What the simplest entry point (Interpreter::eval_bytecode) sees right after the victims.
 const NAMES_PROBE: &str = "[typeof vn0, typeof va0, typeof vo0, typeof vs0, typeof vmain, typeof __log, typeof __show, typeof vr, typeof vK, typeof vB, typeof un0, typeof umain, typeof uK, typeof inner].join(\",\")";
 
+const IMPORT_NAMES_PROBE: &str = "[typeof __h, typeof order, typeof __hm, typeof __hr, typeof __probe, typeof __kinds, typeof __util, typeof __mk, typeof imp_a, typeof __cx].join(\",\")";
+
 struct ObsResult {
     /// result of NAMES_PROBE through eval_bytecode, run before any other observer (when enabled)
     bytecode_probe: String,
@@ -272,10 +277,20 @@ fn observers(h: &mut Host, scn: &Scn, late: &[u64]) -> ObsResult {
     let depth_before = h.interp.call_depth();
     let bytecode_probe = if scn.probe_eval_bytecode_first {
         tsrun::verif::set_fuel(Some(scn.fuel));
-        match h.interp.eval_bytecode(NAMES_PROBE) {
+        let mut out = match h.interp.eval_bytecode(NAMES_PROBE) {
             Ok(v) => crate::host::show_value(&v),
             Err(e) => format!("error:{:?}", crate::host::err_kind_msg(&e)),
+        };
+        // a module's imports are bindings of that module: after module-mode victims only, none of
+        // the imported names may be visible to a later program (script-mode imports bind globally)
+        if scn.victims.iter().all(|v| v.module_path.is_some()) {
+            out.push('|');
+            out.push_str(&match h.interp.eval_bytecode(IMPORT_NAMES_PROBE) {
+                Ok(v) => crate::host::show_value(&v),
+                Err(e) => format!("error:{:?}", crate::host::err_kind_msg(&e)),
+            });
         }
+        out
     } else {
         String::new()
     };
@@ -357,7 +372,7 @@ fn victim_spec(v: &Victim, fuel: u64) -> crate::host::RunSpec {
         let what = if imp.ends_with("bad.ts") { "a as imp_a" } else { "dv as imp_a" };
         first.pre = format!("import {{ {} }} from \"{}\";\n{}", what, imp, first.pre);
     }
-    let mut spec = case.spec(Driver::Step, v.gc.clone(), v.tape.clone(), fuel);
+    let mut spec = case.spec(if v.eval { Driver::Eval } else { Driver::Step }, v.gc.clone(), v.tape.clone(), fuel);
     match &v.module_path {
         Some(p) => spec.path = Some(p.clone()),
         None => {
@@ -492,14 +507,17 @@ impl Check for C11 {
             // module body ran is executed by the next run that waits for any import. Importing
             // victims therefore run out (or never get their module); the witness covers the rest.
             let end = if import.is_some() { End::RunOut } else { end };
+            let module_path = if rng.chance(0.4) { Some(format!("/victims/{}.ts", prefix)) } else { None };
+            let eval = module_path.is_some() && rng.chance(0.35);
             victims.push(Victim {
                 import,
                 withhold,
                 case,
-                module_path: if rng.chance(0.4) { Some(format!("/victims/{}.ts", prefix)) } else { None },
+                module_path,
                 end,
                 tape: Tape::random(rng, 12),
                 gc: if rng.chance(0.6) { GcSched::off() } else { random_gc(rng) },
+                eval,
             });
         }
         let oh = 1 + rng.below(2);
@@ -546,6 +564,7 @@ impl Check for C11 {
             end,
             tape: Tape::random(rng, 8),
             gc: if rng.chance(0.6) { GcSched::off() } else { random_gc(rng) },
+            eval: false,
         }];
         scn
     }
